@@ -206,10 +206,15 @@ func (j *Job) HandleNotifySplitsFinished(sourceRunnerID string, splitIDs []strin
 	if j.sourceSplitter == nil {
 		return connect.NewError(connect.CodeNotFound, fmt.Errorf("sourceSplitter not initialized"))
 	}
-	j.taskQueue <- func() error {
-		j.sourceSplitter.NotifySplitsFinished(sourceRunnerID, splitIDs)
-		return nil
-	}
+	// The caller is a source runner's event loop. It must not wait for the
+	// task queue, which may itself be waiting for that event loop to take a
+	// split assignment.
+	go func() {
+		j.taskQueue <- func() error {
+			j.sourceSplitter.NotifySplitsFinished(sourceRunnerID, splitIDs)
+			return nil
+		}
+	}()
 	return nil
 }
 
